@@ -308,7 +308,15 @@ pub fn oracle(prop: Prop, case: &Case, st: &mut Stats) -> Verdict {
     let (cat, model) = build(&case.catalog);
     let mut cfg = case.cfg.clone();
     if prop != Prop::C01 {
-        cfg.rrl = None;
+        // a limiter that never limits (10^6 responses per second and stream) in the cases that
+        // have one: every response must be what it is without a limiter
+        if let Some(r) = cfg.rrl.as_mut() {
+            r.noerror = 1_000_000;
+            r.nxdomain = 1_000_000;
+            r.error = 1_000_000;
+            r.window = 1;
+            st.class("server-with-a-rate-limiter-that-never-limits");
+        }
     }
     let pool = query_names(&model, &[], 400);
     // One key in three is renamed to a name that occurs in the catalog (selector = octets of
